@@ -73,15 +73,19 @@ H_AB = '''void harness(void) {
                      "the two bounds are the asserted bound and the active bound of the opposite kind on the same variable: +z and -z cancel");
     __CPROVER_assert(g_pushed == 0, "a contradicted bound is not pushed into the model");
   }
+#ifdef C22_ACTIVATION
+  /* LASolver::assertLit records a decision exactly when no conflict is reported, and popBacktrackPoints calls boundDeactivated once per recorded decision */
+  __CPROVER_assert(g_act == (h_unsat ? 0 : 1), "the count of active bounds of the variable is raised exactly when the bound is accepted, so that retracting the literal restores it");
+#endif
   OSMT_REACH("return");
 }
 '''
 AB_STUBS = ('opensmt::LABoundStore::operator[]', 'opensmt::LRAModel::isUnbounded', 'opensmt::LRAModel::boundTriviallyUnsatisfied', 'opensmt::LRAModel::boundTriviallySatisfied', 'opensmt::LRAModel::pushBound',
             'opensmt::Simplex::boundActivated')
-def ab_job():
+def ab_job(extra_defines=()):
     return Job('assertBound.R', 'src/tsolvers/lasolver/Simplex.cc', 'opensmt::Simplex::assertBound', tier='R', header='contracts/C26/farkas.h', pre_includes=('stubs/gmp_types.h', 'stubs/std_types.h', 'contracts/C26/types.h'),
                harness=H_AB, enforce=False, aux_tu=C15.TU, stubs=C15.POOL_STUBS + AB_STUBS, opaque=('opensmt::Simplex', 'opensmt::LRAModel', 'opensmt::Tableau', 'opensmt::LABoundStore'),
-               defines=('C26_ASSERT', 'C26_R'), default_unwind=5, min_obligations=5, timeout=1200, object_bits=12,
+               defines=('C26_ASSERT', 'C26_R') + tuple(extra_defines), default_unwind=5, min_obligations=5, timeout=1200, object_bits=12,
                proves='a bound that contradicts the opposite active bound of the same variable is explained by exactly these two bounds with coefficients 1')
 H_SE = '''void harness(void) {
   t_int n0; h_n = n0; __CPROVER_assume(h_n >= 0 && h_n <= NV);
